@@ -21,6 +21,10 @@ from harness.tracecheck import validate_traces
 
 SD = SPEC / "wrappers"
 DESIGN_REF = "DESIGN.md section 7 (C22), Appendix E; notes/C22.md"
+LEVEL_TEXT = ("bounded-exhaustive TLC on the reference semantics of try/except/else/finally (with the GeneratorExit exemption) over "
+              "a generator-protocol environment + conformance: every TLC behaviour replayed through finalize_wrapper, "
+              "finalize_decorator, contingency_wrapper and the literal Python statement; random nests validated by TLC; one open "
+              "finding (cleanup on close inside the except/else plan of contingency_wrapper)")
 TECHNIQUE = ("TLA+ reference semantics of try/except/else/finally over a generator-protocol environment, exhaustive TLC; "
              "every TLC behaviour replayed through the real wrappers and a literal Python statement; batch trace validation")
 INVS = ["C22_CleanupAtMostOnce", "C22_CleanupAfterEveryExit", "C22_CleanupLast", "C22_NoCleanupOnClose",
